@@ -40,13 +40,18 @@ func (t *TaskExecutor[T]) ExecuteAt(identifier T, callback func(), executionTime
 		queuedElement.Cancel()
 	}
 
-	scheduledTask := t.Executor.ExecuteAt(func() {
+	var scheduledTask *ScheduledTask
+	scheduledTask = t.Executor.ExecuteAt(func() {
 		callback()
 
 		t.queuedElementsMutex.Lock()
 		defer t.queuedElementsMutex.Unlock()
 
-		t.queuedElements.Delete(identifier)
+		// only remove the entry if it still belongs to this task, the identifier could have been scheduled again
+		// in the meantime (e.g. by the callback itself).
+		if queuedElement, queuedElementExists := t.queuedElements.Get(identifier); queuedElementExists && queuedElement == scheduledTask {
+			t.queuedElements.Delete(identifier)
+		}
 	}, executionTime)
 
 	if scheduledTask != nil {
